@@ -88,8 +88,13 @@ package keeper
 //@       && Pledge[str(sp)].TotalShardPledged.Amount >= 0
 //@   ensures [C14.release.other] err == nil ==> has(Pledge, str(sp)) && Pledge[str(sp)].TotalStorage == old(Pledge[str(sp)].TotalStorage)
 //@       && Pledge[str(sp)].TotalStoragePledged == old(Pledge[str(sp)].TotalStoragePledged) && Pledge[str(sp)].Creator == str(sp)
+//@       && Pledge[str(sp)].Reward.Denom == old(Pledge[str(sp)].Reward.Denom) && Pledge[str(sp)].RewardDebt.Denom == old(Pledge[str(sp)].RewardDebt.Denom)
 //@   ensures [C14.release.nil] err == nil && shard == nil ==> Pledge[str(sp)].UsedStorage == old(Pledge[str(sp)].UsedStorage)
 //@       && Pledge[str(sp)].TotalShardPledged == old(Pledge[str(sp)].TotalShardPledged) && (has(PledgeDebt, str(sp)) <==> old(has(PledgeDebt, str(sp))))
+//@       && PledgeDebt[str(sp)] == old(PledgeDebt[str(sp)]) && (forall a addr, d string :: bal(a, d) == old(bal(a, d)))
+//@   ensures [C08.release.settles] shard == nil && old(has(Pledge, str(sp))) && old(has(Pool)) ==> err == nil
+//@   ensures [C07.release.errnil] err != nil && shard == nil ==> Pledge[str(sp)] == old(Pledge[str(sp)]) && (has(Pledge, str(sp)) <==> old(has(Pledge, str(sp))))
+//@       && (has(PledgeDebt, str(sp)) <==> old(has(PledgeDebt, str(sp)))) && PledgeDebt[str(sp)] == old(PledgeDebt[str(sp)]) && (forall a addr, d string :: bal(a, d) == old(bal(a, d)))
 //@   ensures [C08.settle.release] err == nil && old(Pledge[str(sp)].TotalStorage >= 0 && (Pledge[str(sp)].TotalStorage == 0 ==> Pledge[str(sp)].RewardDebt.Amount == 0)) && old(has(Pool)) ==>
 //@       pendingQ(Pledge[str(sp)], get(Pool).AccRewardPerByte.Amount) == old(pendingQ(Pledge[str(sp)], get(Pool).AccRewardPerByte.Amount))
 //@       && Pledge[str(sp)].RewardDebt.Amount == get(Pool).AccRewardPerByte.Amount * Pledge[str(sp)].TotalStorage
@@ -118,6 +123,7 @@ package keeper
 //@   ensures [C14.pledge.spledge] err == nil ==> Pledge[shard.Sp].TotalShardPledged.Amount == old(Pledge[shard.Sp].TotalShardPledged.Amount) + shard.Pledge.Amount
 //@   ensures [C14.pledge.other] err == nil ==> has(Pledge, shard.Sp) && Pledge[shard.Sp].TotalStorage == old(Pledge[shard.Sp].TotalStorage)
 //@       && Pledge[shard.Sp].TotalStoragePledged == old(Pledge[shard.Sp].TotalStoragePledged) && Pledge[shard.Sp].Creator == shard.Sp
+//@       && Pledge[shard.Sp].Reward.Denom == old(Pledge[shard.Sp].Reward.Denom) && Pledge[shard.Sp].RewardDebt.Denom == old(Pledge[shard.Sp].RewardDebt.Denom)
 //@   ensures [C14.pledge.shard] err == nil ==> has(Shard, shard.Id) && Shard[shard.Id] == *shard
 //@   ensures [C14.pledge.shardframe] err == nil ==> shard.Id == old(shard.Id) && shard.Sp == old(shard.Sp) && shard.Size_ == old(shard.Size_) && shard.OrderId == old(shard.OrderId)
 //@       && shard.Status == old(shard.Status) && shard.Duration == old(shard.Duration) && shard.CreatedAt == old(shard.CreatedAt) && shard.RenewInfos == old(shard.RenewInfos)
@@ -210,3 +216,34 @@ package keeper
 //@   ensures [C20.demote.rm] err == nil && Pledge[msg.Creator].TotalStorage < param(KeyVstorageThreshold) ==> has(Node, msg.Creator) && Node[msg.Creator].Role != 1
 //@   ensures [C20.nopromote.rm] err == nil && has(Node, msg.Creator) && Node[msg.Creator].Role == 1 ==> old(Node[msg.Creator].Role) == 1
 //@   ensures [C10.rmv.node] err == nil ==> has(Node, msg.Creator) && Node[msg.Creator].Creator == msg.Creator && Node[msg.Creator].Status == old(Node[msg.Creator].Status)
+
+// ClaimReward: settle, pay the whole-coin part of the caller's own block reward and market income, less recorded debt.
+//@ func (msgServer) ClaimReward(goCtx, msg) (resp, err)
+//@   requires msg != nil
+//@   requires has(Pledge, msg.Creator) ==> Pledge[msg.Creator].Creator == msg.Creator
+//@   requires has(PledgeDebt, msg.Creator) ==> PledgeDebt[msg.Creator].Sp == msg.Creator && PledgeDebt[msg.Creator].Debt.Amount >= 0
+//@   requires has(Pledge, msg.Creator) && has(Worker, sprintf("%s-%s", Pledge[msg.Creator].Reward.Denom, msg.Creator)) ==>
+//@       Worker[sprintf("%s-%s", Pledge[msg.Creator].Reward.Denom, msg.Creator)].Workername == sprintf("%s-%s", Pledge[msg.Creator].Reward.Denom, msg.Creator)
+//@   modifies Pledge[msg.Creator], PledgeDebt[msg.Creator], Worker[sprintf("%s-%s", Pledge[msg.Creator].Reward.Denom, msg.Creator)], Bank
+//@   ensures [C10.claim.bankframe] err == nil ==> forall a addr, d string :: a != addr(msg.Creator) && a != moduleAddr("node") && a != moduleAddr("market") ==> bal(a, d) == old(bal(a, d))
+//@   ensures [C08.claim.fraction] err == nil && old(has(Pool)) && old(Pledge[msg.Creator].TotalStorage >= 0 && (Pledge[msg.Creator].TotalStorage == 0 ==> Pledge[msg.Creator].RewardDebt.Amount == 0))
+//@       && old(pendingQ(Pledge[msg.Creator], get(Pool).AccRewardPerByte.Amount)) >= 0 ==>
+//@       Pledge[msg.Creator].Reward.Amount == mod(old(pendingQ(Pledge[msg.Creator], get(Pool).AccRewardPerByte.Amount)), 1000000000000000000)
+//@       && Pledge[msg.Creator].RewardDebt.Amount == old(get(Pool).AccRewardPerByte.Amount) * Pledge[msg.Creator].TotalStorage
+//@   ensures [C08.claim.paid] err == nil && old(has(Pool)) && old(Pledge[msg.Creator].TotalStorage >= 0 && (Pledge[msg.Creator].TotalStorage == 0 ==> Pledge[msg.Creator].RewardDebt.Amount == 0))
+//@       && old(pendingQ(Pledge[msg.Creator], get(Pool).AccRewardPerByte.Amount)) >= 0
+//@       && addr(msg.Creator) != moduleAddr("node") && addr(msg.Creator) != moduleAddr("market") && moduleAddr("node") != moduleAddr("market") ==>
+//@       oldbal(moduleAddr("node"), Pledge[msg.Creator].Reward.Denom) - bal(moduleAddr("node"), Pledge[msg.Creator].Reward.Denom)
+//@         <= div(old(pendingQ(Pledge[msg.Creator], get(Pool).AccRewardPerByte.Amount)), 1000000000000000000)
+//@       && oldbal(moduleAddr("node"), Pledge[msg.Creator].Reward.Denom) - bal(moduleAddr("node"), Pledge[msg.Creator].Reward.Denom) >= 0
+//@   ensures [C08.claim.debt] err == nil && old(has(Pool)) && old(Pledge[msg.Creator].TotalStorage >= 0 && (Pledge[msg.Creator].TotalStorage == 0 ==> Pledge[msg.Creator].RewardDebt.Amount == 0))
+//@       && old(pendingQ(Pledge[msg.Creator], get(Pool).AccRewardPerByte.Amount)) >= 0
+//@       && addr(msg.Creator) != moduleAddr("node") && addr(msg.Creator) != moduleAddr("market") && moduleAddr("node") != moduleAddr("market") ==>
+//@       (bal(addr(msg.Creator), Pledge[msg.Creator].Reward.Denom) - oldbal(addr(msg.Creator), Pledge[msg.Creator].Reward.Denom))
+//@       + ((old(has(PledgeDebt, msg.Creator)) ? old(PledgeDebt[msg.Creator].Debt.Amount) : 0) - (has(PledgeDebt, msg.Creator) ? PledgeDebt[msg.Creator].Debt.Amount : 0))
+//@       == div(old(pendingQ(Pledge[msg.Creator], get(Pool).AccRewardPerByte.Amount)), 1000000000000000000)
+//@          + (oldbal(moduleAddr("market"), Pledge[msg.Creator].Reward.Denom) - bal(moduleAddr("market"), Pledge[msg.Creator].Reward.Denom))
+//@          + ((old(has(PledgeDebt, msg.Creator)) ? old(PledgeDebt[msg.Creator].Debt.Amount) : 0) - (has(PledgeDebt, msg.Creator) ? PledgeDebt[msg.Creator].Debt.Amount : 0))
+//@          - (div(old(pendingQ(Pledge[msg.Creator], get(Pool).AccRewardPerByte.Amount)), 1000000000000000000) - (oldbal(moduleAddr("node"), Pledge[msg.Creator].Reward.Denom) - bal(moduleAddr("node"), Pledge[msg.Creator].Reward.Denom)))
+//@   ensures [C07.claim.capacity] err == nil ==> has(Pledge, msg.Creator) && Pledge[msg.Creator].TotalStorage == old(Pledge[msg.Creator].TotalStorage) && Pledge[msg.Creator].UsedStorage == old(Pledge[msg.Creator].UsedStorage)
+//@       && Pledge[msg.Creator].TotalStoragePledged == old(Pledge[msg.Creator].TotalStoragePledged) && Pledge[msg.Creator].TotalShardPledged == old(Pledge[msg.Creator].TotalShardPledged)
